@@ -442,6 +442,112 @@ def case_far(case):
     return {"v": uniq, "t": t, "o": "%d|%g|%s|%d|%d" % (n, R, start, len(uniq), min(zero_class, 3)), "nt": True}
 
 
+# ------------------------------------------------------------------------------------------
+# point histories (mixed interior / ideal composites): what a Point reports follows its current data
+# ------------------------------------------------------------------------------------------
+PH_OPS = ["q", "set0", "setlast", "apply", "rebuild", "reverse", "index0"]
+
+
+def _ph_check(P, K, ideal, who, v):
+    """coords of the composite P against the per-unit oracle: K Klein coordinates, ideal flags per unit."""
+    t = 0
+    K = np.asarray(K, dtype=float)
+    flags = np.asarray(ideal, dtype=bool)
+    for m in hyp.MODELS + ["poincare", "klein"]:          # some charts twice: a second read must agree too
+        c = np.asarray(P.coords(m))
+        t += 1
+        dim = K.shape[-1] + 1 if m in ("projective", "hyperboloid") else K.shape[-1]
+        if c.shape != K.shape[:-1] + (dim,):
+            v.append({"key": "point-history/coords-shape/%s" % m, "msg": "%s: coords(%s).shape = %r" % (who, m, c.shape)})
+            return t
+        for i in range(len(K)):
+            if flags[i] and m == "hyperboloid":
+                continue                                   # undefined for ideal points
+            err, tol, bad = chart_error(m, c[i], K[i], bool(flags[i]))
+            if bad is not None or not err <= tol:
+                v.append({"key": "point-history/coords/%s/%s" % (m, "ideal" if flags[i] else "interior"),
+                          "msg": "%s: unit %d (Klein %r): coords(%s) = %r (%s)" % (who, i, K[i].tolist(), m, np.asarray(c[i]).tolist(), bad or "error %.3g, tol %.1g" % (err, tol))})
+                return t
+    # distances between the interior units
+    idx = [i for i in range(len(K)) if not flags[i]]
+    if len(idx) >= 2:
+        from geometry_tools import hyperbolic
+        # the WHOLE composite against itself rolled by one place (an ideal unit stays in the arrays: it must not
+        # spoil the distances between the interior units next to it); entries involving an ideal unit are ignored
+        order = list(range(1, len(K))) + [0]
+        Q = hyperbolic.Point(np.asarray(P.proj_data)[order].copy())
+        with np.errstate(all="ignore"):
+            d = np.asarray(_dist(P, Q), dtype=float)
+        t += 1
+        both = np.array([not flags[i] and not flags[order[i]] for i in range(len(K))])
+        want = hyp.dist_klein(K, K[order])
+        if d.shape != want.shape or not np.all(np.abs(d[both] - want[both]) <= TOL * (1 + want[both]) + 1e-9):
+            v.append({"key": "point-history/distance", "msg": "%s: distances to the rolled composite %r, oracle %r (interior pairs %r)" % (who, d.tolist(), want.tolist(), both.tolist())})
+    return t
+
+
+def case_point_history(case):
+    from geometry_tools import hyperbolic
+    n, seed, ops, mixed = case["n"], case["seed"], case["ops"], case["mixed"]
+    Pn = lattice.klein_points(n, 4, seed)
+    In = lattice.ideal_dirs(n, 2, seed)
+    axis = np.zeros(n)
+    axis[-1] = -1.0                      # an ideal point whose representative (1, 0, .., -1) is EXACTLY null
+    units = [(Pn[2], False), (axis if mixed else Pn[5], mixed), (Pn[4], False), (Pn[6], False)]
+    extra = [(Pn[7], False), (In[0], True), (Pn[1], False)]
+    K = [np.asarray(k, dtype=float) for k, _ in units]
+    F = [f for _, f in units]
+    reps = [1.0, -1.0, 2.5, -0.3]
+    P = hyperbolic.Point(np.array([r * hyp.klein_to_projective(k) for k, r in zip(K, reps)]))
+    # an isometry of H^n and its action on Klein coordinates (through the projective rows, exact up to rounding)
+    g = hyperbolic.Point(hyp.klein_to_projective(0.4 * lattice.generic_dir(n, 21, seed))).origin_to()
+    G = np.asarray(g.proj_data, dtype=float)
+    v, t, nx = [], 1, 0
+    for op in ops:
+        t += 1
+        if op == "q":
+            for m in hyp.MODELS:
+                try:
+                    P.coords(m)
+                except Exception:
+                    pass
+        elif op in ("set0", "setlast"):
+            if len(P.shape) == 0:
+                return {"v": [], "t": t, "o": "n/a", "nt": False}
+            i = 0 if op == "set0" else len(K) - 1
+            k, f = extra[nx % len(extra)]
+            nx += 1
+            P[i] = hyperbolic.Point(-0.3 * hyp.klein_to_projective(np.asarray(k, dtype=float)))
+            K[i], F[i] = np.asarray(k, dtype=float), f
+        elif op == "apply":
+            P = g @ P
+            rows = np.array([hyp.klein_to_projective(k) for k in K]) @ G
+            K = [r[1:] / r[0] for r in rows]
+        elif op == "rebuild":
+            P = hyperbolic.Point(P)
+        elif op == "reverse":
+            if len(P.shape) == 0:
+                return {"v": [], "t": t, "o": "n/a", "nt": False}
+            P = P[::-1]
+            K, F = K[::-1], F[::-1]
+        elif op == "index0":
+            if len(P.shape) == 0:
+                return {"v": [], "t": t, "o": "n/a", "nt": False}
+            P = hyperbolic.Point(np.asarray(P.proj_data)[:2])
+            K, F = K[:2], F[:2]
+    who = "H^%d composite point (%s) after %r" % (n, "interior and ideal units" if mixed else "interior units", ops)
+    t += _ph_check(P, np.array(K), F, who, v)
+    return {"v": v, "t": t, "o": "%d|%s|%s|%d" % (n, mixed, "-".join(ops), len(v)), "nt": True}
+
+
+def point_history_cases(dims, seed):
+    seqs = [[]] + [list(x) for d in (1, 2, 3) for x in itertools.product(PH_OPS, repeat=d) if x[-1] != "q"]
+    for n in dims:
+        for mixed in (False, True):
+            for ops in seqs:
+                yield {"n": n, "seed": seed, "ops": ops, "mixed": mixed}
+
+
 def far_cases(dims, seed, q):
     for n in dims:
         dirs = [d.tolist() for d in lattice.ideal_dirs(n, 2 if q else 6, seed)]
@@ -695,6 +801,10 @@ def run(ctx):
     ctx.tolerances["far self/close distances"] = ("d(x,x), d(x, equal copy from another model), d(x, same ray s further) for R <= 14: "
                                                   "min(sqrt(2 e), 2 e / sinh s) + 32 eps cosh^2 R + 1e-9, e = 16 eps cosh^2 R (measured "
                                                   "<= 1.5 sqrt(2 eps) cosh R); finite, >= 0 and not NaN unconditionally")
+
+    ctx.product("point-histories", "checks.c01:case_point_history", list(point_history_cases((2, 3) if q else (1, 2, 3, 4), seed)), chunk=32,
+                domains={"ops": PH_OPS, "sequences": "all op sequences of length <= 3 not ending in a query", "roots": "a (3,) composite of interior units, and one mixing interior units with an ideal unit",
+                         "oracle": "per-unit closed-form charts of the expected points (tracked alongside) and Klein-metric distances between the interior units"})
 
     shapes = lattice.SHAPES_QUICK if q else lattice.shapes()
     cases = []
